@@ -69,7 +69,8 @@ func snapshot(root string) map[string]snapEntry {
 }
 
 var c19Names = []string{"..", "../x", "../../x", "../../../x", "a/../../x", "/abs", "//x", "./x", "x/", "../victim.txt", "../../canary.txt", "../file.log", "../passwd",
-	"../../../../../../../../tmp/verif_c19_escape", "sub/../../y", "....//x", "..\\x", ".", "", "a/b/c", "../work/../z", "~/x", "\x00", "a\x00../x", "../\x00x"}
+	"../../../../../../../../tmp/verif_c19_escape", "sub/../../y", "....//x", "..\\x", ".", "", "a/b/c", "../work/../z", "~/x", "\x00", "a\x00../x", "../\x00x",
+	"/", "./", "../", "a/..", "./.", "../newdir/", "..\\..\\victim.txt", "..\\..\\planted\\n.bin", "x/../../../y/", "../x/", "..//..//x"}
 
 func c19Worker(c *core.Collector, x *Ctx) {
 	c.Rule = "upload sessions against the DEFAULT file handler in a sandbox cwd: announced names from a list of traversal / absolute / separator forms, names equal to existing files outside the terminal directory, 50-byte and 255-byte names made of '../', NUL-containing, empty and random byte names, several files per session, " +
@@ -166,7 +167,13 @@ func c19Worker(c *core.Collector, x *Ctx) {
 			writes = append(writes, ref.Build(ref.Params{ID: id, BCD: bcd, Serial: serial, Body: body}))
 			serial++
 		}
-		ctrl(0x1210, att.Body1210(consts.ActiveSafetyJS, []byte("T1"), []byte("alarm"), uf))
+		// the other client-controlled text fields of the announcement may be hostile too
+		tid, aid := []byte("T1"), []byte("alarm")
+		if g.Chance(1, 3) {
+			tid = []byte(core.Pick(g.Rand, []string{"../t", "..", "/t", "a/../.."}))
+			aid = []byte(core.Pick(g.Rand, []string{"../../alarm", "../x", "/etc/x", "..", "a/b/../../.."}))
+		}
+		ctrl(0x1210, att.Body1210(consts.ActiveSafetyJS, tid, aid, uf))
 		if g.Chance(2, 3) {
 			for _, f := range uf {
 				if len(f.Name) == 0 || len(f.Name) > 50 || f.Name[0] == 0 || f.Name[len(f.Name)-1] == 0 {
